@@ -1340,7 +1340,13 @@ fn rebuild_value(
         // Insert a leading newline if the value is multi-line and immediate_empty_line is set, or if
         // the value begins with a comment (on the field's own line it would be read as value text)
         let starts_with_comment = matches!(tokens.first(), Some((COMMENT, _)));
-        if (immediate_empty_line && has_newline) || starts_with_comment {
+        // ... but value text that begins with '#' stays on the field's own line: on a continuation
+        // line it would be read as a comment
+        let starts_with_hash = match tokens.first() {
+            Some((VALUE, t)) => t.starts_with('#'),
+            _ => false,
+        };
+        if (immediate_empty_line && has_newline && !starts_with_hash) || starts_with_comment {
             builder.token(NEWLINE.into(), "\n");
             last_was_newline = true;
         } else {
